@@ -76,7 +76,9 @@ func spec(nonce int) []byte {
 			"post": map[string]any{
 				"parameters":  []any{map[string]any{"name": "lim", "in": "query", "schema": map[string]any{"type": "integer", "default": 10, "maximum": 100}}},
 				"requestBody": map[string]any{"required": true, "content": map[string]any{"application/json": map[string]any{"schema": map[string]any{"$ref": "#/components/schemas/Item"}}}},
-				"responses": map[string]any{"200": map[string]any{"description": "ok", "headers": map[string]any{"X-N": map[string]any{"schema": map[string]any{"type": "integer"}}},
+				"responses": map[string]any{"200": map[string]any{"description": "ok", "headers": map[string]any{"X-N": map[string]any{"schema": map[string]any{"type": "integer"}},
+					// one component, declared through content, referenced under two names
+					"X-Meta": map[string]any{"$ref": "#/components/headers/Meta"}, "X-Info": map[string]any{"$ref": "#/components/headers/Meta"}},
 					"content": map[string]any{"application/json": map[string]any{"schema": map[string]any{"type": "array", "items": map[string]any{"$ref": "#/components/schemas/Item"}}}}}},
 			},
 			"head": map[string]any{"responses": map[string]any{"200": map[string]any{"description": "ok"}}},
@@ -86,7 +88,8 @@ func spec(nonce int) []byte {
 				"responses": map[string]any{"204": map[string]any{"description": "gone"}}},
 		},
 		"/items": map[string]any{"get": map[string]any{"responses": map[string]any{"default": map[string]any{"description": "d"}}}},
-	}, map[string]any{"schemas": map[string]any{"Item": item}})
+	}, map[string]any{"schemas": map[string]any{"Item": item},
+		"headers": map[string]any{"Meta": map[string]any{"content": map[string]any{"application/json": map[string]any{"schema": map[string]any{"type": "object", "properties": map[string]any{"v": map[string]any{"type": "integer"}}}}}}}})
 	b, _ := json.Marshal(doc)
 	return b
 }
@@ -242,6 +245,17 @@ func (w *world) run(op Op) string {
 			hdr.Set("X-N", fmt.Sprint(op.Variant))
 		} else if op.Variant%5 == 0 {
 			hdr.Set("X-N", "nan")
+		}
+		switch op.Variant % 7 {
+		case 0, 1:
+			hdr.Set("X-Meta", `{"v":1}`)
+		case 2:
+			hdr.Set("X-Info", `{"v":2}`)
+		case 3:
+			hdr.Set("X-Meta", `{"v":"no"}`)
+		case 4:
+			hdr.Set("X-Info", `not json`)
+			hdr.Set("X-Meta", `{"v":3}`)
 		}
 		ropts := w.options(op.Variant%4 < 2)
 		in := &openapi3filter.ResponseValidationInput{RequestValidationInput: &openapi3filter.RequestValidationInput{Request: req, PathParams: pp, Route: route, Options: ropts}, Status: 200, Header: hdr, Body: io.NopCloser(strings.NewReader(body)), Options: ropts}
